@@ -152,8 +152,8 @@ class C07(Property):
         "two consumers that both leave a field unset which the producer also leaves unset are counted as unconstrained (who fills first is not specified)",
         "a consumer metadata key declared to-be-filled that the producer does not provide is counted as unconstrained",
     )
-    cases = {"quick": 20000, "thorough": 150000}
-    min_nontrivial = {"quick": 8000, "thorough": 40000}
+    cases = {"quick": 20000, "thorough": 1500000}
+    min_nontrivial = {"quick": 8000, "thorough": 300000}
 
     def gen(self, rnd, i, tier):
         def side(is_prod):
